@@ -21,116 +21,111 @@ type St = S<1, true>;
 type Pool = BumpPool<VA, St>;
 type Guard<'a> = BumpPoolGuard<'a, VA, St>;
 
-struct Rec {
-    addr: usize,
-    val: u8,
-    arena: usize,
-}
-
 fn first_chunk(g: &Guard<'_>) -> usize {
     let mut it = g.stats().small_to_big();
     addr(it.next().unwrap().chunk_start())
 }
 
-/// one scheduler step of logical thread `slot`
-#[inline(always)]
-fn step<'p>(pool: &'p Pool, slot: &mut Option<Guard<'p>>, other: &Option<Guard<'p>>, recs: &mut [Rec; 4], nrec: &mut usize, live: &mut usize, peak: &mut usize) {
-    match slot.take() {
-        Some(g) => {
-            drop(g);
-            *live -= 1;
-        }
-        None => {
-            set_budget(1);
-            // either entry point; with_capacity asks for more than an arena with one 48-byte chunk can have left
-            let r = if kani::any() { pool.try_get() } else { pool.try_get_with_capacity(Layout::from_size_align(32, 1).unwrap()) };
-            set_budget(0);
-            // handing out an arena never releases memory of any arena
-            assert!(released() == 0, "C19: a pool operation released a chunk while the pool is alive");
-            let Ok(g) = r else { return };
-            *live += 1;
-            if *live > *peak {
-                *peak = *live;
-            }
-            // exclusivity: two live guards never refer to the same arena
-            if let Some(o) = other {
-                assert!(first_chunk(&g) != first_chunk(o), "C19: two live guards refer to the same arena");
-            }
-            // thread-local work: allocate two bytes and write a pattern
-            if let Ok(p) = g.allocate(Layout::from_size_align(2, 1).unwrap()) {
-                let v: u8 = kani::any();
-                let p = p.cast::<u8>();
-                unsafe { p.as_ptr().write(v) };
-                if *nrec < 4 {
-                    recs[*nrec] = Rec { addr: addr(p), val: v, arena: first_chunk(&g) };
-                    *nrec += 1;
-                }
-            }
-            *slot = Some(g);
-        }
-    }
-}
-
-#[kani::proof]
-#[kani::unwind(7)]
-#[kani::stub(std::alloc::handle_alloc_error, crate::stubs::hae_stub)]
-#[kani::stub(std::sync::Mutex::lock, lock_stub)]
-fn pool_two_threads() {
-    let mut pool: Pool = BumpPool::new_in(VA);
-    pool.bumps().reserve(4);
-    let mut recs = [const { Rec { addr: 0, val: 0, arena: 0 } }; 4];
-    let (mut nrec, mut live, mut peak) = (0usize, 0usize, 0usize);
+/// One schedule per harness (the symbolic-choice versions of DESIGN.md 3/C19 exceed 29-42 GB):
+///   SCHED 0 "hand-off": T0.get, T0 allocates+writes, T0.drop, T1.get (try_get or try_get_with_capacity), T1 allocates
+///   SCHED 1 "overlap":  T0.get, T1.get (two guards live), both allocate, T0.drop, T1.drop
+/// END 0: guards forgotten / nothing released; 1: pool.reset_to_start(); 2: pool.reset(); 3: drop(pool)
+fn pool_body<const SCHED: u8, const WITH_CAPACITY: bool, const END: u8>() {
+    let mut pool = core::mem::ManuallyDrop::new(BumpPool::<VA, St>::new_in(VA));
+    pool.bumps().reserve(2);
+    let (v0, v1): (u8, u8) = (kani::any(), kani::any());
+    let (a0, a1);
     {
         let pool_ref: &Pool = &pool;
-        let mut g0: Option<Guard<'_>> = None;
-        let mut g1: Option<Guard<'_>> = None;
-        macro_rules! sched {
-            () => {
-                if kani::any::<bool>() {
-                    step(pool_ref, &mut g0, &g1, &mut recs, &mut nrec, &mut live, &mut peak);
-                } else {
-                    step(pool_ref, &mut g1, &g0, &mut recs, &mut nrec, &mut live, &mut peak);
-                }
-            };
-        }
-        sched!();
-        sched!();
-        sched!();
-        sched!();
-        kani::cover!(g0.is_some() && g1.is_some(), "two guards live at once");
-        kani::cover!(grants() == 1 && nrec >= 2, "one arena reused by a later get");
-        kani::cover!(grants() == 2, "two arenas created");
-        // an arena returned by a dropped guard is reused before a new one is created
-        assert!(grants() <= peak, "C19: more arenas were created than the peak number of simultaneously live guards");
-        // everything allocated through any guard is still intact (also after the arena was re-issued)
-        let k: usize = kani::any();
-        if k < nrec {
-            assert!(unsafe { (recs[k].addr as *const u8).read() } == recs[k].val, "C19: data allocated through a guard changed before the pool was reset");
-            let j: usize = kani::any();
-            if j < nrec && j != k {
-                assert!(recs[j].addr != recs[k].addr, "C19/C01: two allocations made through guards share an address");
-            }
-        }
-        drop(g0);
-        drop(g1);
+        set_budget(1);
+        let Ok(g0) = pool_ref.try_get() else { return };
+        set_budget(0);
+        let arena0 = first_chunk(&g0);
+        let Ok(p0) = g0.allocate(Layout::from_size_align(2, 1).unwrap()) else { return };
+        let p0 = p0.cast::<u8>();
+        unsafe { p0.as_ptr().write(v0) };
+        a0 = addr(p0);
+        let g0 = if SCHED == 1 {
+            Some(g0)
+        } else {
+            drop(g0);
+            None
+        };
         assert!(released() == 0, "C19: returning a guard released a chunk");
+        set_budget(1);
+        let r1 = if WITH_CAPACITY { pool_ref.try_get_with_capacity(Layout::from_size_align(32, 1).unwrap()) } else { pool_ref.try_get() };
+        set_budget(0);
+        let Ok(g1) = r1 else { return };
+        assert!(released() == 0, "C19: handing out an arena released a chunk while the pool is alive");
+        let arena1 = first_chunk(&g1);
+        if SCHED == 1 {
+            assert!(arena1 != arena0, "C19: two live guards refer to the same arena");
+            assert!(grants() == 2, "C19: two simultaneously live guards did not get two arenas");
+        } else {
+            assert!(grants() == 1, "C19: a new arena was created although an idle one was available");
+            assert!(arena1 == arena0, "C19: the idle arena was not re-issued");
+        }
+        let Ok(p1) = g1.allocate(Layout::from_size_align(2, 1).unwrap()) else { return };
+        let p1 = p1.cast::<u8>();
+        unsafe { p1.as_ptr().write(v1) };
+        a1 = addr(p1);
+        assert!(a1 != a0 && a1 != a0 + 1 && a1 + 1 != a0, "C19/C01: allocations made through two guards overlap");
+        assert!(unsafe { (a0 as *const u8).read() } == v0, "C19: data allocated through a guard changed before the pool was reset");
+        if END == 0 {
+            core::mem::forget(g0);
+            core::mem::forget(g1);
+        } else {
+            drop(g0);
+            drop(g1);
+            assert!(released() == 0, "C19: returning a guard released a chunk");
+        }
     }
+    if END == 0 {
+        return finish();
+    }
+    let peak = if SCHED == 1 { 2 } else { 1 };
     assert!(pool.bumps().len() == grants(), "C19: arenas lost or duplicated in the pool");
     assert!(pool.bumps().len() <= peak, "C19: pool holds more arenas than the peak number of live guards");
-    let end: u8 = kani::any();
-    match end % 3 {
-        0 => {
+    assert!(unsafe { (a0 as *const u8).read() } == v0 && unsafe { (a1 as *const u8).read() } == v1, "C19: data changed before the pool was reset");
+    match END {
+        1 => {
             pool.reset_to_start();
             assert!(live_grants() == grants() && released() == 0, "C19/C05: reset_to_start of the pool released a chunk");
         }
-        1 => {
+        2 => {
             pool.reset();
             assert!(live_grants() == grants(), "C19/C05: reset of single-chunk arenas released a chunk");
         }
-        _ => {}
+        _ => {
+            let n = grants();
+            drop(core::mem::ManuallyDrop::into_inner(pool));
+            assert!(live_grants() == 0 && released() == n, "C19/C05: dropping the pool did not return every chunk exactly once");
+        }
     }
-    let n = grants();
-    drop(pool);
-    assert!(live_grants() == 0 && released() == n, "C19/C05: dropping the pool did not return every chunk exactly once");
+    finish()
+}
+
+#[inline(never)]
+fn finish() {
     kani::cover!(true, "END: harness ran to completion");
 }
+
+macro_rules! pool_harness {
+    ($name:ident, $sched:literal, $cap:literal, $end:literal) => {
+        #[kani::proof]
+        #[kani::unwind(7)]
+        #[kani::stub(std::alloc::handle_alloc_error, crate::stubs::hae_stub)]
+        #[kani::stub(std::sync::Mutex::lock, lock_stub)]
+        fn $name() {
+            pool_body::<$sched, $cap, $end>();
+        }
+    };
+}
+pool_harness!(pool_handoff_get, 0, false, 0);
+pool_harness!(pool_handoff_with_capacity, 0, true, 0);
+pool_harness!(pool_overlap_get, 1, false, 0);
+pool_harness!(pool_overlap_with_capacity, 1, true, 0);
+pool_harness!(pool_handoff_then_drop, 0, false, 3);
+pool_harness!(pool_overlap_then_drop, 1, false, 3);
+pool_harness!(pool_overlap_then_reset, 1, false, 2);
+pool_harness!(pool_handoff_then_reset_to_start, 0, true, 1);
